@@ -206,9 +206,9 @@ pub fn run(run: &Run) {
     run.assume("all identities receive identical statistics so the multi-factor multiplier is equal, as the property presupposes");
     run.set_rule("graph", "honest graph on h nodes (density 0..h², incl. no outgoing statements at all), 1..50 anchors, s unvouched identities with clique/star/chain/self-loop/random/no internal edges, optional Sybil→honest statements; non-trivial = ≥1 internal edge; distinct by case hash");
     let sh = shards_for(run.tier);
-    run.prop("graph", run.tier.pick(500, 6000), sh, case(60, 60), run_case);
-    run.prop("graph", run.tier.pick(60, 1500), sh, case(300, 300), run_case);
-    run.prop("graph", run.tier.pick(12, 300), sh, case(1000, 1000), run_case);
+    run.prop("graph", run.tier.pick(50000, 144000), sh, case(60, 60), run_case);
+    run.prop("graph", run.tier.pick(6000, 36000), sh, case(300, 300), run_case);
+    run.prop("graph", run.tier.pick(1200, 7200), sh, case(1000, 1000), run_case);
 }
 
 pub fn replay(run: &Run, sub: &str, case: &Value) -> Option<bool> {
